@@ -136,6 +136,7 @@ def run(rep):
             transformation(rep, mir, L, d, tkind)
             init_trajectory(rep, mir, L, d, tkind)
     step_size_factor(rep, mir, L)
+    microcanonical_bookkeeping(rep, mir, L)
     for d in dims: exact_normal(rep, mir, L, d)
     for d in dims:
         for tkind in ('diag', 'lowrank1'):
@@ -211,7 +212,8 @@ def leapfrog_textbook(rep, mir, L, d, tkind):
             vp = _check(rep, 'C02.a original-space position = textbook x + eps M^-1 p_half, M^-1 = F F^T (%s)' % tag, 'textbook.position.%s' % tkind, pre + [z3.Or(*[out['untransformed_position'][i] != x1[i] for i in range(d)])], 'position deviates from the textbook leapfrog', timeout=60000)
             # the position equality just proved is handed to the momentum query as a lemma (it lets congruence identify grad(x') in both schemes without non-linear reasoning)
             lemma = [out['untransformed_position'][i] == x1[i] for i in range(d)] if vp == 'holds' else []
-            _check(rep, 'C02.a original-space momentum: v\' = F^T p\' with the textbook p\' = p_half + eps/2 grad(x\'), v = F^T p (%s)' % tag, 'textbook.momentum.%s' % tkind, pre + lemma + [z3.Or(*[out['velocity'][i] != v1_ref[i] for i in range(d)])], 'momentum deviates from the textbook leapfrog', timeout=120000)
+            for i in range(d):     # one coordinate per query: the disjunction over coordinates made z3's non-linear search erratic
+                _check(rep, 'C02.a original-space momentum, coordinate %d: v\' = F^T p\' with the textbook p\' = p_half + eps/2 grad(x\'), v = F^T p (%s)' % (i, tag), 'textbook.momentum.%s' % tkind, pre + lemma + [out['velocity'][i] != v1_ref[i]], 'momentum deviates from the textbook leapfrog', timeout=120000)
         rep.absorb_vm(S.vm)
 
 def step_size_factor(rep, mir, L):
@@ -235,6 +237,30 @@ def step_size_factor(rep, mir, L):
                     cons = [used[0][1][0] != eps] if used else [z3.BoolVal(True)]
                 _check(rep, 'C02.f the step taken is step_size x step_size_factor, signed by the direction (%s %s)' % (kk, direction), 'leapfrog.factor', pre + [z3.Or(*cons)], 'the effective step size is not step_size * step_size_factor')
             rep.absorb_vm(S.vm)
+
+def microcanonical_bookkeeping(rep, mir, L):
+    """Microcanonical kind (the ESH update itself is C18 / C17): the step is  ESH(eps sqrt(n)/2) - drift y' = y + eps sqrt(n) u - evaluate at F(y') - ESH(eps sqrt(n)/2),
+    both ESH calls get the whitened gradient of the point they act on, and the kinetic energy of the new point is the old one plus the two reported changes"""
+    d = 2
+    for direction in ('Forward', 'Backward'):
+        sign = 1 if direction == 'Forward' else -1
+        S = Setup(mir, L, d, 'diag', 'Microcanonical'); A = S.A
+        h, st = S.consistent_start(free=True); eps = sign * S.eps.v
+        ke0 = z3.Real('ke_start'); pt = S.m.mem[h.f[0].cell]; names = L.fields('TransformedPoint'); vals = {n_: pt.f[i] for i, n_ in enumerate(names)}; vals['kinetic_energy'] = Fl(ke0); S.m.mem[h.f[0].cell] = L.make('TransformedPoint', vals)
+        outs = S.leapfrog(S.m, h, direction); rep.paths += len(outs)
+        oks = [(m, v) for (m, k, v) in outs if k == 'ret' and v.name == 'Ok']
+        rep.cover('C02.g microcanonical leapfrog has a feasible Ok path (%s)' % direction, bool(oks))
+        for (m, v) in oks:
+            out = S.point(m, v.f[0]); pre = S.pre + m.pc; calls = m.ghost.get('esh_calls', [])
+            if len(calls) != 2: rep.violated('C02.g two ESH half-steps (%s)' % direction, 'micro.esh_count', 'the microcanonical step makes %d ESH updates instead of 2' % len(calls)); continue
+            (g1, u0, h1, u1, dk1), (g2, u1b, h2, u2, dk2) = calls
+            sq = A.uf['sqrt'](z3.RealVal(d)); half = sq * eps / 2
+            y1 = [st['y'][i] + eps * sq * u1[i] for i in range(d)]; x1 = S.F(y1); tg1 = S.JT(S.G(x1))
+            _check(rep, 'C02.g first ESH half-step: whitened gradient and momentum of the start, step sqrt(n) eps / 2 (%s)' % direction, 'micro.first', pre + [z3.Or(h1 != half, *([g1[i] != st['tg'][i] for i in range(d)] + [u0[i] != st['v'][i] for i in range(d)]))], 'first ESH half-step gets the wrong gradient / momentum / step')
+            _check(rep, 'C02.g drift y\' = y + sqrt(n) eps u and evaluation at F(y\') (%s)' % direction, 'micro.drift', pre + [z3.Or(*([out['transformed_position'][i] != y1[i] for i in range(d)] + [out['untransformed_position'][i] != x1[i] for i in range(d)] + [out['transformed_gradient'][i] != tg1[i] for i in range(d)]))], 'microcanonical drift / evaluation point wrong')
+            _check(rep, 'C02.g second ESH half-step: gradient of the new point, momentum from the first half-step, same step (%s)' % direction, 'micro.second', pre + [z3.Or(h2 != half, *([g2[i] != tg1[i] for i in range(d)] + [u1b[i] != u1[i] for i in range(d)] + [out['velocity'][i] != u2[i] for i in range(d)]))], 'second ESH half-step gets the wrong gradient / momentum / step')
+            _check(rep, 'C02.g kinetic energy of the new point = old + both reported ESH changes; index advanced (%s)' % direction, 'micro.energy', pre + [z3.Or(out['kinetic_energy'] != ke0 + dk1 + dk2, out['idx'] != st['idx'] + sign)], 'microcanonical kinetic-energy bookkeeping wrong (a reported ESH change dropped or subtracted)')
+        rep.absorb_vm(S.vm)
 
 def transformation(rep, mir, L, d, tkind):
     """bijection, gradient pull-back, log-determinant"""
